@@ -22,7 +22,7 @@ import re
 import vlib
 
 LEVEL = "model_checking"
-RUNS = {"quick": (60, 140), "thorough": (500, 1500)}
+RUNS = {"quick": (72, 200), "thorough": (600, 2000)}
 
 
 def drive(ctx, binary, ntrace, ndiff, tag, extra_env=None):
@@ -163,7 +163,7 @@ def run(ctx):
                         "hooks observe EmStep and BaumWelchStep; the other per-thread accumulator sites are covered by the differential runs and the race detector"]
     return ctx.finish(
         rule="model: every interleaving of ParallelEM for the listed pool shapes; code: one recorded schedule per trace run "
-             "(scenario x pool size x buffer x GOMAXPROCS x seed) accepted by ParallelEMTrace, plus differential runs of 15 "
+             "(scenario x pool size x buffer x GOMAXPROCS x seed) accepted by ParallelEMTrace, plus differential runs of 20 "
              "estimator scenarios against the sequential result under the race detector; runs are distinct by configuration and seed",
         evaluations=diff, distinct_nontrivial=diff)
 
